@@ -214,16 +214,19 @@ CHECKS = {
                       "or an error; selectors and authenticator are stubs. Verdicts: no reachable panic (including in the receiver goroutine once "
                       "established), truthful establishment (state/id/local/remote node adopted from the server's established envelope), id echo, "
                       "credentials only in answer to an authentication request, close on finished/failed.",
-        "level_note": "Trusted: SSA->SMT executor, cooperative scheduler (no pre-emption), z3. Bounds: script depth 4 / 6; the caller's context has a deadline "
+        "level_note": "Trusted: SSA->SMT executor, cooperative scheduler (no pre-emption), z3. Bounds: script depth 6 / 8; the caller's context has a deadline "
                       "(a server that stops talking ends the handshake with the context's error).",
         "runs": [
             {"harness": "HarnessC08Client", "params": {"depth": 4}, "reach": ["c08:handshake-returned", "c08:client-established"], "tier": "quick"},
             {"harness": "HarnessC08Build", "params": {"depth": 4}, "reach": ["c08:build-returned"], "tier": "quick"},
             {"harness": "HarnessC08Client", "grid": {"emptyopts": [0, 1], "setfails": [0, 1], "roundtrip": [0, 1]}, "params": {"depth": 6},
+             "reach": ["c08:handshake-returned"], "tier": "quick"},
+            {"harness": "HarnessC08Build", "grid": {"sendfails": [0, 1]}, "params": {"depth": 6}, "reach": ["c08:build-returned"], "tier": "quick"},
+            {"harness": "HarnessC08Client", "grid": {"emptyopts": [0, 1], "setfails": [0, 1], "roundtrip": [0, 1]}, "params": {"depth": 8},
              "reach": ["c08:handshake-returned"], "tier": "thorough"},
-            {"harness": "HarnessC08Build", "grid": {"sendfails": [0, 1]}, "params": {"depth": 6}, "reach": ["c08:build-returned"], "tier": "thorough"},
+            {"harness": "HarnessC08Build", "grid": {"sendfails": [0, 1]}, "params": {"depth": 8}, "reach": ["c08:build-returned"], "tier": "thorough"},
         ],
-        "bounds": {"quick": {"script_depth": 4}, "thorough": {"script_depth": 6}},
+        "bounds": {"quick": {"script_depth": 6}, "thorough": {"script_depth": 8}},
         "out": ["the library's default selectors/authenticator (they index options[0] / panic by design and are callbacks in the property's sense)"],
         "assumptions": ["selector and authenticator callbacks return normally"],
     },
@@ -489,16 +492,16 @@ CHECKS = {
                       "streams of arbitrary kinds: the invoked handlers are exactly the earliest-registered one whose predicate is missing or accepts, once, "
                       "with the envelope pointer as received and the session as sender; no match invokes nothing and the loop goes on; a handler error stops "
                       "the loop, and Server.handleChannel then finishes the session.",
-        "level_note": "Trusted: SSA->SMT executor, cooperative scheduler, z3. Bounds: 3 / 4 handlers per kind, 2 / 3 inbound envelopes.",
+        "level_note": "Trusted: SSA->SMT executor, cooperative scheduler, z3. Bounds: 4 / 6 handlers per kind, 3 / 4 inbound envelopes (3 handlers per kind in the loop harness).",
         "runs": [
-            {"harness": "HarnessC20Handle", "grid": {"kind": [0, 1, 2, 3]}, "params": {"handlers": 3}, "reach": ["c20:handled"], "tier": "quick"},
-            {"harness": "HarnessC20Handle", "grid": {"kind": [0, 1, 2, 3]}, "params": {"handlers": 4}, "reach": ["c20:handled"], "tier": "thorough"},
-            {"harness": "HarnessC20Listen", "params": {"handlers": 2, "envelopes": 2}, "reach": ["c20:listen-returned"], "tier": "quick"},
-            {"harness": "HarnessC20Listen", "params": {"handlers": 3, "envelopes": 3}, "reach": ["c20:listen-returned"], "tier": "thorough"},
+            {"harness": "HarnessC20Handle", "grid": {"kind": [0, 1, 2, 3]}, "params": {"handlers": 4}, "reach": ["c20:handled"], "tier": "quick"},
+            {"harness": "HarnessC20Handle", "grid": {"kind": [0, 1, 2, 3]}, "params": {"handlers": 6}, "reach": ["c20:handled"], "tier": "thorough"},
+            {"harness": "HarnessC20Listen", "params": {"handlers": 3, "envelopes": 3}, "reach": ["c20:listen-returned"], "tier": "quick"},
+            {"harness": "HarnessC20Listen", "params": {"handlers": 3, "envelopes": 4}, "reach": ["c20:listen-returned"], "tier": "thorough"},
             {"harness": "HarnessC14Serve", "params": {"enccfg": 2, "transport": 2, "depth": 4, "schemecfg": 0, "compcfg": 0},
              "reach": ["c20:handler-failed-while-serving"]},
         ],
-        "bounds": {"quick": {"handlers": 3, "envelopes": 2}, "thorough": {"handlers": 4, "envelopes": 3}},
+        "bounds": {"quick": {"handlers": 4, "envelopes": 3}, "thorough": {"handlers": 6, "envelopes": 4}},
         "out": ["nothing material beyond the bounds"],
         "assumptions": ["predicates are pure (their verdict for a handler is fixed per run)"],
     },
